@@ -2,6 +2,7 @@ package main
 
 import (
 	"go/ast"
+	"go/types"
 	"strings"
 )
 
@@ -10,6 +11,65 @@ func ruleOneTimezoneSource(c *Ctx) {
 	const rule = "R30.2"
 	exceptions := map[string]string{
 		"utils/io.nanosecondsInYear": "only the LENGTH of the year is computed (end − start in the same zone); it does not place an instant",
+	}
+	// locOK: the location expression denotes the configured zone — directly, as the Location()
+	// of a time converted with ToSystemTimezone, or as a parameter whose every caller passes
+	// such an expression (a start-of-year helper that takes the zone as an argument).
+	var locOK func(fn *Func, loc ast.Expr, depth int) bool
+	locOK = func(fn *Func, loc ast.Expr, depth int) bool {
+		info := fn.Pkg.TypesInfo
+		loc = unparen(loc)
+		if strings.HasSuffix(fieldKey(info, loc), ".Timezone") && mentionsObjKey(info, loc, "utils.InstanceConfig") {
+			return true
+		}
+		if lc, ok := loc.(*ast.CallExpr); ok && CalleeName(info, lc) == "(time.Time).Location" {
+			sel, _ := unparen(lc.Fun).(*ast.SelectorExpr)
+			if sel == nil {
+				return false
+			}
+			o := identObj(info, sel.X)
+			if o == nil {
+				return false
+			}
+			ok := false
+			walkAll(fn.Decl.Body, func(k ast.Node) bool {
+				if as, isAs := k.(*ast.AssignStmt); isAs && len(as.Lhs) == 1 && len(as.Rhs) == 1 && identObj(info, as.Lhs[0]) == o {
+					if cx, isC := unparen(as.Rhs[0]).(*ast.CallExpr); isC && CalleeName(info, cx) == "utils/io.ToSystemTimezone" {
+						ok = true
+					}
+				}
+				return true
+			})
+			return ok
+		}
+		if depth >= 3 {
+			return false
+		}
+		// a parameter: every caller must pass the configured zone
+		if id, ok := loc.(*ast.Ident); ok {
+			raw := info.ObjectOf(id)
+			sig := fn.Obj.Type().(*types.Signature)
+			for i := 0; i < sig.Params().Len(); i++ {
+				if paramObj(fn, i) != raw {
+					continue
+				}
+				sites := 0
+				for _, e := range c.P.CG().In[fn.Key] {
+					if c.P.IsTestFile(e.From.Decl.Pos()) {
+						continue
+					}
+					if e.Kind != "static" || e.Site == nil || i >= len(e.Site.Args) {
+						return false
+					}
+					sites++
+					if !locOK(e.From, e.Site.Args[i], depth+1) {
+						return false
+					}
+				}
+				return sites > 0
+			}
+		}
+		return false
 	}
 	n, conform := 0, 0
 	for _, fn := range c.P.NonTestFuncs() {
@@ -72,6 +132,9 @@ func ruleOneTimezoneSource(c *Ctx) {
 				c.Check(ok, rule, fn.Key, construct, pos, "year origin in the Location() of a time converted with ToSystemTimezone")
 			case exceptions[fn.Key] != "":
 				c.Hold(rule, fn.Key, construct, pos, "listed exception: "+exceptions[fn.Key])
+			case locOK(fn, loc, 0):
+				conform++
+				c.Hold(rule, fn.Key, construct, pos, "year origin in a zone parameter; every caller passes the configured zone")
 			default:
 				c.Violate(rule, fn.Key, construct, pos,
 					"a year origin of the slot mapping is computed in "+canon+" instead of the configured time zone: with a non-UTC configuration the instant it denotes differs from the one the index was computed from (variable-length timestamps are shifted by the zone offset)", nil)
